@@ -353,6 +353,113 @@ fn c05_roundtrip_dual() {
     core::mem::forget(d2);
 }
 
+//@ c05_scorer_codec_roundtrip {"desc":"hand-written Scorer codec: encode then decode returns the same three arrays for arbitrary contents (zeros included), and the encoding is the documented layout (three length-prefixed little-endian arrays)","bounds":"2 bases, 3 check/cost cells","symbolic":"all array contents","functions":["Scorer::encode","Scorer::decode"],"fs":5000,"unwind":14,"unwindset":["ElemWriter:200"],"timeout":900,"stubs":["unty::type_equal"]}
+#[cfg(kani)]
+#[kani::proof]
+#[kani::stub(unty::type_equal, crate::csvstub::stub_type_equal)]
+fn c05_scorer_codec_roundtrip() {
+    let (mut bases, mut checks, mut costs) = ([0u32; 2], [0u32; 3], [0i32; 3]);
+    let sc = sym_scorer_parts(&mut bases, &mut checks, &mut costs);
+    let mut w = ElemWriter::new();
+    let n = match bincode::encode_into_std_write(&sc, &mut w, vibrato::common::bincode_config()) {
+        Ok(n) => n,
+        Err(_) => {
+            assert!(false);
+            0
+        }
+    };
+    assert!(n == w.pos && n == 8 + 2 * 4 + 8 + 3 * 4 + 8 + 3 * 4, "unexpected encoded size");
+    assert!(w.buf[0] == 2 && w.buf[16] == 3 && w.buf[36] == 3, "array lengths are not where the layout puts them");
+    for i in 0..2 {
+        let b = [w.buf[8 + 4 * i], w.buf[9 + 4 * i], w.buf[10 + 4 * i], w.buf[11 + 4 * i]];
+        assert!(u32::from_le_bytes(b) == bases[i], "a base is not encoded at its place");
+    }
+    let mut r = CutReader::new(&w.buf, n);
+    let d: Result<Scorer, _> = bincode::decode_from_std_read(&mut r, vibrato::common::bincode_config());
+    match &d {
+        Ok(x) => same_scorer(x, &bases, &checks, &costs),
+        Err(_) => assert!(false, "the encoded scorer does not decode"),
+    }
+    kani::cover!(bases[1] == 0 && bases[0] == 0);
+    kani::cover!(bases[1] != 0);
+    core::mem::forget(d);
+    core::mem::forget(sc);
+}
+
+//@ c05_scorer_codec_zero_bases {"desc":"Scorer codec with concrete zero bases (0 is a valid double-array offset and the first one the builder tries): all entries survive, including trailing zeros","bounds":"bases [7,0] and [0,0]; 3 symbolic check/cost cells","symbolic":"checks, costs","functions":["Scorer::encode","Scorer::decode"],"fs":5000,"unwind":14,"unwindset":["ElemWriter:200"],"timeout":900,"covers":"none","stubs":["unty::type_equal"]}
+#[cfg(kani)]
+#[kani::proof]
+#[kani::stub(unty::type_equal, crate::csvstub::stub_type_equal)]
+fn c05_scorer_codec_zero_bases() {
+    for first in [7u32, 0u32] {
+        let mut ch = Vec::with_capacity(3);
+        let mut co = Vec::with_capacity(3);
+        let (mut checks, mut costs) = ([0u32; 3], [0i32; 3]);
+        for i in 0..3 {
+            checks[i] = kani::any();
+            costs[i] = kani::any();
+            ch.push(checks[i]);
+            co.push(costs[i]);
+        }
+        let sc = Scorer::verif_from_parts(vec![first, 0], ch, co);
+        let mut w = ElemWriter::new();
+        let n = match bincode::encode_into_std_write(&sc, &mut w, vibrato::common::bincode_config()) {
+            Ok(n) => n,
+            Err(_) => 0,
+        };
+        assert!(n == w.pos && n == 8 + 2 * 4 + 8 + 3 * 4 + 8 + 3 * 4, "an array was written shorter or longer than it is");
+        let mut r = CutReader::new(&w.buf, n);
+        let d: Result<Scorer, _> = bincode::decode_from_std_read(&mut r, vibrato::common::bincode_config());
+        match &d {
+            Ok(x) => same_scorer(x, &[first, 0], &checks, &costs),
+            Err(_) => assert!(false, "the encoded scorer does not decode"),
+        }
+        core::mem::forget(d);
+        core::mem::forget(sc);
+    }
+}
+
+//@ c05_trie_codec_roundtrip {"desc":"hand-written Trie codec: the encoding is the length-prefixed crawdad serialization and decoding it gives a trie that serializes to the same bytes","bounds":"generator-built trie for {a, ab} (88 bytes)","symbolic":"none (structure only)","functions":["Trie::encode","Trie::decode","Lexicon codec"],"fs":5000,"unwind":24,"unwindset":["ElemWriter:200","c05_trie_codec_roundtrip:100"],"timeout":900,"covers":"none","stubs":["unty::type_equal"]}
+#[cfg(kani)]
+#[kani::proof]
+#[kani::stub(unty::type_equal, crate::csvstub::stub_type_equal)]
+fn c05_trie_codec_roundtrip() {
+    let lex = sym_lexicon(&gen::LEX_A_AB_TRIE, &gen::LEX_A_AB_POST, gen::LEX_A_AB_NWORDS, 2, 2, LexType::System);
+    let mut w = ElemWriter::new();
+    let n = match bincode::encode_into_std_write(&lex, &mut w, vibrato::common::bincode_config()) {
+        Ok(n) => n,
+        Err(_) => {
+            assert!(false);
+            0
+        }
+    };
+    assert!(n == w.pos);
+    // the lexicon starts with its word map, which starts with the trie: u64 length + bytes
+    assert!(w.buf[0] == 88 && w.buf[1] == 0);
+    for i in 0..88 {
+        assert!(w.buf[8 + i] == gen::LEX_A_AB_TRIE[i], "trie bytes are not written verbatim");
+    }
+    let mut r = CutReader::new(&w.buf, n);
+    let d: Result<Lexicon, _> = bincode::decode_from_std_read(&mut r, vibrato::common::bincode_config());
+    match &d {
+        Ok(l2) => {
+            let tb = l2.verif_trie_bytes();
+            assert!(tb.len() == 88);
+            for i in 0..88 {
+                assert!(tb[i] == gen::LEX_A_AB_TRIE[i], "the reloaded trie differs");
+            }
+            for i in 0..2 {
+                let wi = WordIdx { lex_type: LexType::System, word_id: i };
+                assert!(l2.word_param(wi) == lex.word_param(wi));
+            }
+            core::mem::forget(tb);
+        }
+        Err(_) => assert!(false, "the encoded lexicon does not decode"),
+    }
+    core::mem::forget(d);
+    core::mem::forget(lex);
+}
+
 //@ c05_twin {"expect":"fail","desc":"vacuity twin: claims the reloaded matrix differs from the written one","bounds":"as c05_roundtrip_matrix","symbolic":"cells, parameters","functions":["Dictionary::write","Dictionary::read"],"fs":5000,"unwind":24,"unwindset":["memcmp:24","ElemWriter:200"],"timeout":2400,"mem_gb":24,"covers":"none","stubs":["alloc::fmt::format","unty::type_equal"]}
 #[cfg(kani)]
 #[kani::proof]
